@@ -199,8 +199,78 @@ def run_hook(n: int, inv_mask: int, via: int) -> Tuple[bool, bool]:
 ALL = ["a0", "b0", "s0", "i0", "d1", "a1", "b1", "i1", "fg", "p0", "p1", "p2", "p3", "q0", "q1", "q2", "v0", "v1", "w0", "w1"]
 
 
+CTOR_SHAPES = ["with_init", "no_init_class_attribute", "namedtuple", "dbc_base_no_init", "dbc_derived_no_init"]
+CTOR_ON = [icontract.InvariantCheckEvent.CALL, icontract.InvariantCheckEvent.SETATTR, icontract.InvariantCheckEvent.ALL]
+
+
+def run_ctor_invariants(shape_i: int, on0: int, on1: int, t0: bool, t1: bool) -> Tuple[bool, bool]:
+    """Constructor calls: every invariant listed in ``cls.__invariants__`` - whatever its check_on event - is established
+    by the real construction; judging the constructed object by hand against that list gives the same verdict."""
+    from typing import NamedTuple
+    shape_i, on0, on1 = conc(shape_i, 0, len(CTOR_SHAPES) - 1), conc(on0, 0, 2), conc(on1, 0, 2)
+    shape = CTOR_SHAPES[shape_i]
+    truth = {"i0": True, "i1": True}  # type: Dict[str, Any]
+    with untraced():
+        def cond(name: str) -> Any:
+            def c(self: Any) -> Any:
+                return truth[name]
+            c.__name__ = name
+            return c
+
+        def deco(cls: Any) -> Any:
+            cls = icontract.invariant(cond("i0"), error=lambda: Tag("i0"), check_on=CTOR_ON[on0])(cls)
+            return icontract.invariant(cond("i1"), error=lambda: Tag("i1"), check_on=CTOR_ON[on1])(cls)
+        if shape == "with_init":
+            class K:
+                def __init__(self) -> None:
+                    self.v = 1
+            cls = deco(K)
+            args = ()  # type: Tuple[Any, ...]
+        elif shape == "no_init_class_attribute":
+            class K2:
+                v = 1
+            cls = deco(K2)
+            args = ()
+        elif shape == "namedtuple":
+            NT = NamedTuple("NT", [("v", int)])
+            cls = deco(NT)
+            args = (1,)
+        elif shape == "dbc_base_no_init":
+            cls = deco(icontract.DBCMeta("Base", (icontract.DBC,), {"v": 1}))
+            args = ()
+        else:
+            base = deco(icontract.DBCMeta("Base", (icontract.DBC,), {"v": 1}))
+            cls = icontract.DBCMeta("Derived", (base,), {"w": 2})
+            args = ()
+        listed = [c.condition.__name__ for c in cls.__invariants__]
+        inst = cls(*args)  # all invariants hold: a reference instance for the manual judgement
+    ok = listed == ["i0", "i1"]
+    truth["i0"], truth["i1"] = t0, t1
+    try:
+        fresh(cls, *args)
+        real = "ret"
+    except Tag as err:
+        real = err.label
+    manual = "ret"
+    for inv in cls.__invariants__:
+        if not inv.condition(self=inst):
+            manual = inv.condition.__name__
+            break
+    if real != manual:
+        ok = False
+    note(("ctor_invariants", shape, on0, on1, real, manual), manual != "ret")
+    return ok, manual != "ret"
+
+
 def harnesses(tier: str) -> List[H]:
     out = []  # type: List[H]
+    CI = ["shape_i", "on0", "on1", "t0", "t1"]
+    out.append(H("ctor_invariants", bind(run_ctor_invariants, (), CI, {}, CI),
+                 [I("shape_i", 0, len(CTOR_SHAPES) - 1), I("on0", 0, 2), I("on1", 0, 2), B("t0"), B("t1")], tiers=(tier,),
+                 timeout=300,
+                 family="constructor call of classes {} with two invariants, each with check_on in {{CALL, SETATTR, ALL}}; the real "
+                        "construction vs. evaluating cls.__invariants__ by hand".format(CTOR_SHAPES),
+                 family_size=len(CTOR_SHAPES) * 9))
     kinds = ["func", "method", "prop_get"] if tier == "quick" else ["func", "method", "static", "class", "prop_get",
                                                                      "prop_set", "prop_del"]
     for kind in kinds:
